@@ -21,8 +21,8 @@ import (
 )
 
 type C16Obs struct {
-	Skip     string   `json:"skipped,omitempty"` // the store does not load: nothing to internalise
-	Problems []string `json:"problems,omitempty"`
+	Skip     string      `json:"skipped,omitempty"` // the store does not load: nothing to internalise
+	Problems []string    `json:"problems,omitempty"`
 	Names    [][3]string `json:"names,omitempty"` // collection, resolved location#fragment, derived component name
 }
 
